@@ -1,7 +1,7 @@
 META = dict(
     level='exploration',
     rule=('cases = (wrapper, element type, shape/length, index type, index wrapper, index value); wrappers tainted<T[N]> (application layout) and '
-          'tainted_volatile<T[N]> (guest layout, mbox lp32 memory); N = 1..16 for int and char, {1,2,3,8,16} for short/long/long long/int*/double; shapes '
+          'tainted_volatile<T[N]> (guest layout, mbox lp32 memory); N = 1..16 for int and char, {1,2,3,8,16} for short/long/long long/int*/double, long arrays char[129/200/256/300/32769/40000] and long[200] (lengths a bounds check done in the width of an 8- or 16-bit index would let through; abort and address only); shapes '
           '2x3 and 3x2; 10 index types; every 8/16-bit index value, boundary + aliasing values (2^8+i, 2^16+i, 2^31+i, 2^32+i, 2^33+i, 2^63+i, negatives) '
           'for 32/64-bit (thorough: every index in [-300, 8*len+300] and 2^k+i, -2^k+i, 2^k-1-i for every k in 3..64); plain, tainted and tainted_volatile indices. Oracle: abort iff idx<0 or idx>=len, else element address = start + idx*elem_size '
           'of that layout and a store through it changes only that element (canaries). non-trivial = out-of-range index.'),
@@ -10,7 +10,7 @@ META = dict(
 
 
 def run(ctx):
-    specs = [('c17_' + k.lower(), 'c17.cpp', dict(opt='-O1', defs=['C17_' + k])) for k in 'ABCD']
+    specs = [('c17_' + k.lower(), 'c17.cpp', dict(opt='-O1', defs=['C17_' + k])) for k in 'ABCDE']
     bins = ctx.build_many(specs)
-    for k in 'ABCD':
+    for k in 'ABCDE':
         ctx.run(bins['c17_' + k.lower()], ['--thorough'] if ctx.thorough else [])
